@@ -297,6 +297,19 @@ func runRepCase(t *testing.T, c *c16RepCase) {
 			}
 		}
 		ob.Pend = pendTable(nd, blocks, ids)
+		// an earlier round on the same instance, built from the same observations in reverse order (and without the last
+		// one): Report is a function of what it is handed and of the coordinator's state, nothing of one round may reach
+		// the next
+		if c.Epoch%3 == 0 && len(attr) > 1 {
+			prev := make([]ocr2types.AttributedObservation, 0, len(attr))
+			for i := len(attr) - 2; i >= 0; i-- {
+				prev = append(prev, attr[i])
+			}
+			nd.run.set(c.Script, c.Mode)
+			nd.enc.encFail = false
+			_, _, _ = nd.plugin.Report(context.Background(), ocr2types.ReportTimestamp{Epoch: c.Epoch, Round: c.Round + 100}, nil, prev)
+			nd.run.take()
+		}
 		nd.run.set(c.Script, c.Mode)
 		nd.enc.encFail = c.EncFail
 		should, rep, rerr := nd.plugin.Report(context.Background(), ocr2types.ReportTimestamp{Epoch: c.Epoch, Round: c.Round}, nil, attr)
